@@ -94,6 +94,11 @@ def gen_binop(rng, tier):
     if op in ("divide", "div_op", "fn_divide"):
         if not set(g["scope"]) <= set(f["scope"]):
             f, g = (g, f) if set(f["scope"]) <= set(g["scope"]) else (f, gen.rand_factor(rng, f["scope"], card, k=rng.randint(1, len(f["scope"]))))
+    if rng.random() < .2:
+        # entries far below 1e-8 (and far above 1e8) are ordinary numbers: the algebra is pointwise at every magnitude
+        for h in rng.sample([f, g], rng.choice([1, 1, 2])):
+            sc = Fraction(10) ** rng.choice([-9, -12, -15, -30, 9])
+            h["vals"] = [rs(Fraction(x) * sc) for x in h["vals"]]
     return {"names": names, "card": card, "labels": labels, "f": f, "g": g, "op": op,
             "inplace": rng.random() < .4, "rel": rel}
 
